@@ -551,7 +551,31 @@ class Connection(ExportImport):
         self._added_during_commit = None
 
     def _store_objects(self, writer, transaction):
+        storing = []
+        try:
+            self._store_new_and_changed(writer, transaction, storing)
+        except:  # noqa: E722 do not use bare 'except'
+            # New objects that have got an oid but are not in the cache
+            # yet - the one being stored and those still waiting in the
+            # writer - are out of reach of the abort that follows.
+            for obj in storing + list(writer):
+                oid = obj._p_oid
+                if (getattr(obj, '_p_serial', z64) != z64
+                        or self._cache.get(oid) is not None
+                        or oid in self._added):
+                    continue
+                if self._creating.pop(oid, True):
+                    # implicitly added: disown it
+                    del obj._p_jar
+                    del obj._p_oid
+                else:
+                    # explicitly added and registered: abort disowns it
+                    self._added[oid] = obj
+            raise
+
+    def _store_new_and_changed(self, writer, transaction, storing):
         for obj in writer:
+            storing[:] = [obj]
             oid = obj._p_oid
             serial = getattr(obj, "_p_serial", z64)
 
